@@ -74,6 +74,37 @@ def search(chk, broken):
     rng = chk.rng
     n = 12 if (chk.tier == 'quick' and not broken) else 500
     evals = 0
+    # ordinary long-range rifle fire, requested to a ladder of ranges: the rows a shorter request shares with a longer one are the same
+    # rows, bit for bit (wherever the request ends: inside or beyond the band around the station altitude, before or after the
+    # transonic zone, ...)
+    U = pbc.Unit
+    for _ in range(3 if (chk.tier == 'quick' and not broken) else 40):
+        if chk.over():
+            break
+        calc = pbc.Calculator()
+        shot = pbc.Shot(pbc.Weapon(U.Inch(rng.uniform(1.5, 3)), 12), pbc.Ammo(pbc.DragModel(rng.uniform(0.2, 0.5), rng.choice([pbc.TableG7, pbc.TableG1])),
+                                                                            U.FPS(rng.uniform(2400, 3000))))
+        try:
+            calc.set_weapon_zero(shot, U.Yard(rng.choice([100, 200])))
+        except Exception:  # noqa
+            continue
+        step = 150.0
+        R = step * rng.randint(22, 30)
+        base, why = fire(pbc, calc, shot, R, step)
+        if why or len(base) < 3:
+            continue
+        evals += 1
+        for frac in (0.55, 0.6, 0.65, 0.7, 0.75, 0.8, 0.85, 0.9, 0.95):
+            R2 = step * max(2, int(frac * R / step))
+            short, _ = fire(pbc, calc, shot, R2, step)
+            k = sum(1 for r in short if r.distance.raw_value <= R2 * 12 * (1 + 1e-12))
+            if [vals(r) for r in short[:k]] != [vals(r) for r in base[:k]]:
+                j = next(i for i in range(k) if vals(short[i]) != vals(base[i]))
+                chk.failures.append(Failure('range-changes-rows', f'the row at {short[j].distance.raw_value / 12:.1f} ft differs between a request to {R2} ft and one to {R} ft '
+                                                                  f'(same zeroed rifle shot, same step {step} ft)',
+                                            {'op': 'range-ladder', 'R': R, 'R2': R2, 'step': step, 'row_ft': short[j].distance.raw_value / 12,
+                                             'bc': shot.ammo.dm.BC, 'mv_fps': shot.ammo.mv >> U.FPS}))
+                break
     for _ in range(n):
         if chk.over():
             break
